@@ -315,4 +315,29 @@ def lookup (k : String) : List (String × Val) → Option Val
   | [] => none
   | (k', v) :: r => if k' = k then some v else lookup k r
 
+/-! ### HTTP body -/
+
+/-- `httptracker.Announce`, closure `doReq`: a declared `Content-Length` above `maxResponseLength`
+is refused; otherwise the body is read through `io.LimitReader(resp.Body, maxResponseLength)`.
+`contentLength = none` for a chunked reply (Go reports −1). -/
+def httpBodyRead (limit : Nat) (contentLength : Option Nat) (body : Bytes) : Option Bytes :=
+  match contentLength with
+  | some n => if n > limit then none else some (body.take limit)
+  | none => some (body.take limit)
+
+/-! ### HTTP dictionary-model peers -/
+
+/-- `parsePeersDictionary` (repaired): entries whose `ip` is not an IP literal (`net.ParseIP` gives
+nil — a DNS name, an empty string, garbage) are skipped. `ip?` is the result of `net.ParseIP`
+(4 or 16 bytes), an input here. -/
+def dictPeers : List (Option Bytes × Nat) → List Peer
+  | [] => []
+  | (none, _) :: r => dictPeers r
+  | (some ip, port) :: r => { ip := ip, port := port } :: dictPeers r
+
+/-- Pre-fix: every entry became an address, with an empty IP when parsing failed. -/
+def dictPeersStale : List (Option Bytes × Nat) → List Peer
+  | [] => []
+  | (ip?, port) :: r => { ip := ip?.getD [], port := port } :: dictPeersStale r
+
 end Rain.TrackerWire
